@@ -41,7 +41,8 @@ def directed(rng: random.Random) -> dict:
     kind = rng.choice(["capture_eager", "capture_deferred", "forward_label", "local_labels", "recursion", "code_block", "undefined_macro",
                        "too_few", "nested", "zero_params", "shadow_outer", "arg_uses_later_param", "param_shadows_global_unsized",
                        "mixed_immediate_and_deferred", "splice_in_nested_scope", "undefined_macro_nested", "macro_and_scope_same_name",
-                       "argument_names_later_nearer_label", "named_scope_in_body", "many_applications", "block_declares_name_used_by_body", "block_expanded_several_times"])
+                       "argument_names_later_nearer_label", "named_scope_in_body", "many_applications", "block_declares_name_used_by_body", "block_expanded_several_times",
+                       "defined_inside_a_scope_applied_outside", "label_in_conditional_applied_twice"])
     expect_reject = False
     expect_bytes = None
     if kind == "capture_eager":
@@ -49,6 +50,32 @@ def directed(rng: random.Random) -> dict:
                  {"k": "assign", "n": "pa", "e": E(10)}, {"k": "assign", "n": "pb", "e": E(20)},
                  {"k": "call", "n": "macA", "as": [E(1), rng.choice([E("pa", "+", 1), E("pa"), E("pb", "+", "pa")])]},
                  {"k": "call", "n": "macA", "as": [E("pb"), E("pa")]}]
+    elif kind == "defined_inside_a_scope_applied_outside":
+        # a library scope (or block, or conditional) holds its routines, constants and helper macros: the macro table belongs to the whole
+        # assembly, an application after the scope or inside another scope expands the body like anywhere else
+        mdef = {"k": "macro", "n": "put2", "ps": ["pa"], "b": [db(E("pa"), E("pa", "+", 1)), {"k": "label", "n": "inl"}, {"k": "data", "d": "dw", "es": [E("inl")]}]}
+        holder = rng.choice(["scope", "scope", "block", "if", "scope_in_scope", "for"])
+        inside = [db(0x10), mdef, {"k": "call", "n": "put2", "as": [E(0x20)]}]
+        if holder == "scope":
+            body += [{"k": "scope", "n": "libq", "b": inside}]
+        elif holder == "block":
+            body += [{"k": "block", "b": inside}]
+        elif holder == "if":
+            body += [{"k": "if", "c": E(1), "t": inside}]
+        elif holder == "for":
+            body += [{"k": "for", "v": "itQ", "a": E(0), "b": E(1), "body": inside}]
+        else:
+            body += [{"k": "scope", "n": "libq", "b": [{"k": "scope", "n": "innerq", "b": inside}, {"k": "call", "n": "put2", "as": [E(0x28)]}]}]
+        body += [{"k": "call", "n": "put2", "as": [E(0x30)]}, {"k": "scope", "n": "userq", "b": [{"k": "call", "n": "put2", "as": [E(0x40)]}]},
+                 {"k": "block", "b": [{"k": "call", "n": "put2", "as": [E(0x50)]}]}]
+    elif kind == "label_in_conditional_applied_twice":
+        # a macro without parameters whose label stands inside a conditional (or a loop / block) of its body: every application has its own
+        inner = [{"k": "label", "n": "waitq"}, db(0x2C), {"k": "data", "d": "dw", "es": [E("waitq")]}]
+        wrap = rng.choice(["if", "else", "block", "none", "if_in_if"])
+        b = {"if": [{"k": "if", "c": E(1), "t": inner}], "else": [{"k": "if", "c": E(0), "t": [db(1)], "e": inner}], "block": [{"k": "block", "b": inner}],
+             "none": inner, "if_in_if": [{"k": "if", "c": E(1), "t": [{"k": "if", "c": E(2), "t": inner}]}]}[wrap]
+        body += [{"k": "macro", "n": "pollq", "ps": [], "b": [db(0xA0)] + b}, {"k": "call", "n": "pollq", "as": []}, db(0xEA, 0xEA, 0xEA),
+                 {"k": "call", "n": "pollq", "as": []}, {"k": "block", "b": [{"k": "call", "n": "pollq", "as": []}]}]
     elif kind == "arg_uses_later_param":
         body += [{"k": "macro", "n": "macA", "ps": ["pa", "pb", "pc"], "b": [db(E("pa"), E("pb"), E("pc"))]},
                  {"k": "assign", "n": "pc", "e": E(0x33)}, {"k": "assign", "n": "pa", "e": E(0x11)},
